@@ -117,6 +117,10 @@ type ListItem struct {
 
 	// Children contains nested list items
 	Children []ListItem
+
+	// paraIndex is the index of the paragraph this item was made from, in
+	// the paragraph slice given to DetectFromParagraphs
+	paraIndex int
 }
 
 // List represents a complete list structure
@@ -566,6 +570,7 @@ func (d *ListDetector) createListItem(candidate listCandidate, index int) ListIt
 		ListType:    candidate.listType,
 		BulletStyle: candidate.bulletStyle,
 		Number:      candidate.number,
+		paraIndex:   candidate.paragraphIndex,
 	}
 }
 
